@@ -6,6 +6,10 @@ Oracles (LLL basis, float cube root) are explicit arguments.  No Mathlib.
 import ParanoidModel.Model.NTheory
 namespace Paranoid
 
+/-- `if 1 < g < n: return [g, n // g]` — the guard in front of every gcd-derived factor. -/
+def splitBy (g n : Nat) : Option (List Nat) :=
+  if 1 < g ∧ g < n then some [g, n / g] else none
+
 /-! ### FermatFactor -/
 
 /-- the `for _ in range(max_steps)` loop of `FermatFactor`. -/
@@ -68,28 +72,37 @@ def factorHighAndLowBitsEqual (n middleBits : Nat) : Except PyErr (Option (List 
 
 /-- `for rt in (t, -t): p = gcd(n, 2*a*x + b + rt); if 1 < p < n: return …`. -/
 def cfTryRoots (n : Nat) (base : Int) (t : Nat) : Option (List Nat) :=
-  let p1 := Int.gcd (n : Int) (base + t)
-  if 1 < p1 ∧ p1 < n then some [p1, n / p1]
-  else
-    let p2 := Int.gcd (n : Int) (base - t)
-    if 1 < p2 ∧ p2 < n then some [p2, n / p2] else none
+  match splitBy (Int.gcd (n : Int) (base + t)) n with
+  | some fs => some fs
+  | none => splitBy (Int.gcd (n : Int) (base - t)) n
 
-/-- loop body of `CheckContinuedFraction` over the convergent list. -/
+/-- the factoring attempt for one convergent, given `(r, c)` and `(a, b)`. -/
+def cfAttempt (n x : Nat) (a b c : Int) : Option (List Nat) :=
+  if a ≠ 0 ∧ c ≠ 0 ∧ isSquareI (b * b - 4 * a * c) then
+    cfTryRoots n (2 * a * x + b) (isqrt (b * b - 4 * a * c).toNat)
+  else none
+
+/-- body of the loop for one `(quot, _, v)`: `some result` to return, `none` to continue. -/
+def cfStep (n x bound quot v : Nat) : Except PyErr (Option (Bool × List Nat)) :=
+  match divmodRounded ((n : Int) * v) x with
+  | .error e => .error e
+  | .ok (r, c) =>
+    match divmodRounded r x with
+    | .error e => .error e
+    | .ok (a, b) =>
+      match cfAttempt n x a b c with
+      | some fs => .ok (some (false, fs))
+      | none => if quot ≥ bound then .ok (some (false, [])) else .ok none
+
+/-- loop of `CheckContinuedFraction` over the convergent list. -/
 def cfCheckLoop (n : Nat) (x : Nat) (bound : Nat) :
     List (Nat × Nat × Nat) → Except PyErr (Bool × List Nat)
   | [] => .ok (true, [])
-  | (quot, _, v) :: rest => do
-    let (r, c) ← divmodRounded ((n : Int) * v) x
-    let (a, b) ← divmodRounded r x
-    let disc := b * b - 4 * a * c
-    let found : Option (List Nat) :=
-      if a ≠ 0 ∧ c ≠ 0 ∧ isSquareI disc then cfTryRoots n (2 * a * x + b) (isqrt disc.toNat)
-      else none
-    match found with
-    | some fs => .ok (false, fs)
-    | none =>
-      if quot ≥ bound then .ok (false, [])
-      else cfCheckLoop n x bound rest
+  | (quot, _, v) :: rest =>
+    match cfStep n x bound quot v with
+    | .error e => .error e
+    | .ok (some res) => .ok res
+    | .ok none => cfCheckLoop n x bound rest
 
 /-- `CheckContinuedFraction(n, bound)`. -/
 def checkContinuedFraction (n bound : Nat) : Except PyErr (Bool × List Nat) :=
@@ -112,9 +125,9 @@ def checkFractionLoop (n w : Nat) : List (List Int) → Except PyErr (List Nat)
   | row :: rest =>
     match row with
     | cx :: v1 :: _ =>
-      let ax := -v1
-      let p := Int.gcd (ax * w + cx) (n : Int)
-      if 1 < p ∧ p < n then .ok [p, n / p] else checkFractionLoop n w rest
+      match splitBy (Int.gcd ((-v1) * w + cx) (n : Int)) n with
+      | some fs => .ok fs
+      | none => checkFractionLoop n w rest
     | _ => .error .indexError
 
 /-- `CheckFraction(n, d0)` given the reduced basis returned by `lll.reduce`. -/
@@ -129,20 +142,20 @@ def fwgShift (n : Nat) : Nat := bitLength n / 3 - 52
 /-- the integer handed to the float cube root: `int(n) >> (3 * shift)`. -/
 def fwgCbrtArg (n : Nat) : Nat := n >>> (3 * fwgShift n)
 
+/-- `a = isqrt(d); if a * a < d: a += 1`. -/
+def ceilSqrt (d : Nat) : Nat := if isqrt d * isqrt d < d then isqrt d + 1 else isqrt d
+
+/-- the single Fermat step on `d = 4uvn` with `a = ceil(sqrt d)`. -/
+def fwgFinish (n a d : Nat) : Option (List Nat) :=
+  if isSquare (a * a - d) then splitBy (Nat.gcd (a + isqrt (a * a - d)) n) n else none
+
 /-- the loop over convergents. Note the pinned control flow: the first admissible
 convergent decides (`return None` inside the `if`). -/
 def fwgLoop (n p0 q0 bound : Nat) : List (Nat × Nat × Nat) → Option (List Nat)
   | [] => none
   | (_, u, v) :: rest =>
     if ((u : Int) * q0 - (v : Int) * p0).natAbs < bound then
-      let d := 4 * u * v * n
-      let a0 := isqrt d
-      let a := if a0 * a0 < d then a0 + 1 else a0
-      if isSquare (a * a - d) then
-        let b := isqrt (a * a - d)
-        let g := Nat.gcd (a + b) n
-        if 1 < g ∧ g < n then some [g, n / g] else none
-      else none
+      fwgFinish n (ceilSqrt (4 * u * v * n)) (4 * u * v * n)
     else fwgLoop n p0 q0 bound rest
 
 /-- `FactorWithGuess(n, p_0)`; `cbrt = int((n >> 3*shift) ** (1/3))` is the float oracle. -/
@@ -173,14 +186,16 @@ def checkSmallUpperDifferences (n cbrt : Nat) : Except PyErr (Option (List Nat))
 
 /-! ### Pollardpm1 -/
 
+/-- the part of `Pollardpm1` after the gcd gate, given `p = gcd(pow(a, m, n) - 1, n)`. -/
+def pm1Decide (p n : Nat) : Bool × List Nat :=
+  match splitBy p n with
+  | some fs => (true, fs)
+  | none => if p = n then (true, []) else (false, [])
+
 /-- `Pollardpm1(n, m, gcd_bound)`. -/
 def pollardPm1 (n m gcdBound : Nat) : Bool × List Nat :=
   if Nat.gcd (n - 1) m ≥ gcdBound then
-    let a := powMod 2 (n - 1) n
-    let p := Int.gcd ((powMod a m n : Int) - 1) (n : Int)
-    if 1 < p ∧ p < n then (true, [p, n / p])
-    else if p = n then (true, [])
-    else (false, [])
+    pm1Decide (Int.gcd ((powMod (powMod 2 (n - 1) n) m n : Int) - 1) (n : Int)) n
   else (false, [])
 
 /-! ### CheckLowHammingWeight -/
